@@ -711,6 +711,13 @@ impl Reader {
       self.reliability,
       self.like_stateless,
     );
+    if !writer_sn.is_acceptable() {
+      debug!(
+        "Ignoring data from {:?} with implausible sequence number {:?}. topic={:?}",
+        writer_guid, writer_sn, self.topic_name
+      );
+      return;
+    }
     if !self.like_stateless {
       let my_entity_id = self.my_guid.entity_id; // to please borrow checker
       if let Some(writer_proxy) = self.matched_writer_mut(writer_guid) {
@@ -886,6 +893,13 @@ impl Reader {
       debug!(
         "HEARTBEAT from {:?}, but no writer proxy available. topic={:?} reader={:?}",
         writer_guid, self.topic_name, self.my_guid
+      );
+      return false;
+    }
+    if !heartbeat.first_sn.is_acceptable() || !heartbeat.last_sn.is_acceptable() {
+      warn!(
+        "Ignoring HEARTBEAT from {:?} with implausible sequence numbers {:?} to {:?}",
+        writer_guid, heartbeat.first_sn, heartbeat.last_sn
       );
       return false;
     }
@@ -1095,6 +1109,18 @@ impl Reader {
           "Invalid GAP from {:?}: minimum of gap_list (={:?}) is zero or negative. topic={:?} \
            reader={:?}",
           writer_guid,
+          gap.gap_list.base(),
+          self.topic_name,
+          self.my_guid
+        );
+        return;
+      }
+      if !gap.gap_start.is_acceptable() || !gap.gap_list.base().is_acceptable() {
+        debug!(
+          "Invalid GAP from {:?}: implausibly large sequence numbers gap_start={:?} gap_list \
+           base={:?}. topic={:?} reader={:?}",
+          writer_guid,
+          gap.gap_start,
           gap.gap_list.base(),
           self.topic_name,
           self.my_guid
